@@ -7,7 +7,25 @@ import re
 from .errors import AnalysisError
 from .te import ClassRef, FuncRef, Member, TypeRef
 
-VERSIONS = list(range(4, 15))
+VERSIONS = []  # filled in place by load_versions() from EZSP._BY_VERSION of the tree under analysis (4..14 on the pinned tree)
+
+
+def load_versions(repo):
+    """The protocol versions the tree supports = keys of EZSP._BY_VERSION (each must have its vN package)."""
+    try:
+        by = repo.cls("bellows.ezsp", "EZSP").lookup("_BY_VERSION")
+    except (KeyError, AnalysisError):
+        by = None
+    if not isinstance(by, dict) or not all(isinstance(k, int) for k in by):
+        raise AnalysisError("anchor vanished: EZSP._BY_VERSION does not resolve to a version table")
+    vs = sorted(by)
+    for v in vs:
+        if not repo.is_module(f"bellows.ezsp.v{v}.commands"):
+            raise AnalysisError(f"protocol version {v} is in EZSP._BY_VERSION but bellows.ezsp.v{v}.commands does not exist")
+    if len(vs) < 2 or vs[0] != 4:
+        raise AnalysisError(f"supported versions resolve to {vs}; the analysis expects the legacy version 4 and at least one more")
+    VERSIONS[:] = vs
+    return VERSIONS
 # variables / attributes that hold the EZSP facade or the protocol handler outside the handler classes (wiring)
 EZSP_RECEIVERS = {"self._ezsp", "ezsp", "self._ezsp._protocol", "ezsp._protocol", "self._protocol"}
 EXCLUDED_MODULE_PREFIXES = ("bellows.cli",)
